@@ -7,3 +7,4 @@ CONSTANTS
 INVARIANT AllFramesEqual
 INVARIANT Isometry
 INVARIANT EmitFrame
+INVARIANT EmitForms
